@@ -25,10 +25,9 @@ type stats struct {
 	HeadHits                  int // Latest calls served without asking the node
 	FailedAsks                int
 	OverlapSameKey            bool // two calls on the same segment key were in flight at the same time
-	SharedSliceTwoFilters     bool // two callers with different filters got the same cached block slice
+	SharedSlice               bool // two callers got the same block slice (memory shared through the cache)
 	FetchAfterFailedSameKey   int  // calls on a key after a failed fetch of that key that reached the node
 	DistinctHeadsSeen         int
-	LogsAttachedByOtherFilter bool
 }
 
 var (
@@ -60,15 +59,20 @@ func overlap(a, b *call) bool {
 // COUNTING RULE (bounded reuse). A read "asks the node" when the call itself issued the
 // exchange that fetches the blocks/headers of its segment (Get) or the "latest" header
 // (Latest); such a read is not counted. Every other successful read was served from cache.
-//   - segments: every Get returns the cached slice itself, so the identity of the returned
-//     slice tells exactly which fetch a cached read was served from. For every fetch, the
-//     number of OTHER calls that returned its slice must be <= maxreads.
-//   - head: a cached Latest returns a copy, so provenance is by value: for every announced
-//     pair P and every moment t, (number of cached reads that returned P up to t) must be
-//     <= maxreads x (number of node answers announcing P before t). This is the weakest
-//     rule that every assignment of cached reads to the announcements they could have been
-//     served from must satisfy; sequentially it is "at most maxreads cached reads between
-//     two consecutive asks".
+//   - segments (per key = cache kind, start, limit): the successful fetches of the key cut
+//     time into windows; window i lasts from fetch i to fetch i+1. At most maxreads cached
+//     reads may fall into one window, none before the first fetch. A cached read is served
+//     at some moment of its call interval [invoke, return]; the exact moment is not
+//     observable, so a read is charged to ANY window its interval touches, whichever is most
+//     favourable (earliest-deadline-first placement decides feasibility exactly). For calls
+//     that do not overlap this is precisely "at most maxreads reads served without asking
+//     the node between two consecutive node fetches".
+//   - head: a cached Latest is served at the moment it returns (no scheduling point in
+//     between), but the cache installs an answer some steps after the exchange, so
+//     provenance is by value: for every announced pair P and every moment t, (number of
+//     cached reads that returned P up to t) must be <= maxreads x (number of node answers
+//     announcing P before t) — the weakest rule that every assignment of cached reads to the
+//     announcements they could have been served from must satisfy.
 //
 // Sequentially both rules say: a fetch followed by more than maxreads reads that do not
 // reach the node is a violation (TestCache_MaxReads: maxreads=2 → fetch, cached, fetch;
@@ -156,121 +160,115 @@ func judge(h *history, deadlock string, panics []string) (*finding, stats) {
 				if overlap(a, b) {
 					st.OverlapSameKey = true
 				}
+				if a.OK && b.OK && a.Ptr != 0 && a.Ptr == b.Ptr {
+					st.SharedSlice = true
+				}
 			}
 		}
-		// fetches of this key
-		var spare []*call // fetched fine, failed later (logs / receipts): their slice is cached but was not returned
+		// successful fetches of this key, in time order; calls after a failed fetch that reached the node
+		var okFetch []*call
 		for _, c := range calls {
 			if e := c.fetchEx(); e != nil {
 				st.Fetches++
 				if e.faulted() {
 					st.FailedFetches++
-				} else if !c.OK {
-					spare = append(spare, c)
+				} else {
+					okFetch = append(okFetch, c)
 				}
 			}
-		}
-		// calls after a failed fetch of the key
-		for _, c := range calls {
 			if e := failedBefore(key, c.Inv); e != nil && c.fetchEx() != nil {
 				st.FetchAfterFailedSameKey++
 			}
 		}
-		type group struct {
-			ptr    uintptr
-			source *call
-			cached []*call
+		sort.Slice(okFetch, func(i, j int) bool { return okFetch[i].fetchEx().At < okFetch[j].fetchEx().At })
+		nWin := len(okFetch) // windows 1..nWin: window i = after successful fetch i, before fetch i+1; window 0 = before any fetch
+		winOf := func(t int) int {
+			n := 0
+			for _, f := range okFetch {
+				if f.fetchEx().At < t {
+					n++
+				}
+			}
+			return n
 		}
-		var groups []*group
-		idx := map[uintptr]*group{}
+		type rd struct {
+			c      *call
+			lo, hi int
+			placed bool
+		}
+		var reads []*rd
 		for _, c := range calls {
-			if !c.OK || c.Ptr == 0 {
+			if !c.OK || c.fetchEx() != nil {
 				continue
 			}
-			g := idx[c.Ptr]
-			if g == nil {
-				g = &group{ptr: c.Ptr}
-				idx[c.Ptr] = g
-				groups = append(groups, g)
-			}
-			if c.fetchEx() != nil {
-				if g.source != nil {
-					vio("provenance", "two-fetches-returned-one-slice", fmt.Sprintf("key %s: calls %d and %d both fetched from the node and returned the same slice", key, g.source.ID, c.ID))
+			st.CachedReads++
+			r := &rd{c: c, lo: winOf(c.Inv), hi: winOf(c.Ret)}
+			if r.hi == 0 {
+				k := "served-without-fetch"
+				if failedBefore(key, c.Ret) != nil {
+					k = "failed-fetch-served-from-cache"
 				}
-				g.source = c
-			} else {
-				g.cached = append(g.cached, c)
+				vio("provenance", k, fmt.Sprintf("key %s: call %d (%s %s) returned blocks without asking the node, and no successful fetch of this key had happened before it returned", key, c.ID, c.Thread, c.Op))
+				continue
 			}
+			if r.lo == 0 {
+				r.lo = 1
+			}
+			reads = append(reads, r)
 		}
-		for _, g := range groups {
-			fl := map[string]bool{}
-			for _, c := range g.cached {
-				fl[c.Op.Filt] = true
+		// Most favourable placement: every cached read is charged to one of the windows its call
+		// interval touches; window i can take maxreads of them. Greedy by earliest deadline.
+		for i := 1; i <= nWin; i++ {
+			var cand []*rd
+			for _, r := range reads {
+				if !r.placed && r.lo <= i && i <= r.hi {
+					cand = append(cand, r)
+				}
 			}
-			if g.source != nil {
-				fl[g.source.Op.Filt] = true
+			sort.SliceStable(cand, func(a, b int) bool { return cand[a].hi < cand[b].hi })
+			for n, r := range cand {
+				if n < h.M {
+					r.placed = true
+				}
 			}
-			if len(fl) > 1 {
-				st.SharedSliceTwoFilters = true
+			if len(cand) > st.MaxServedPerFetch {
+				st.MaxServedPerFetch = len(cand)
 			}
-			st.CachedReads += len(g.cached)
-			if len(g.cached) > st.MaxServedPerFetch {
-				st.MaxServedPerFetch = len(g.cached)
+			var over []*rd
+			for _, r := range cand {
+				if !r.placed && r.hi == i {
+					over = append(over, r)
+				}
 			}
-			src := g.source
-			if src == nil && len(g.cached) > 0 {
-				// served from a fetch whose own caller failed afterwards?
-				firstRet := g.cached[0].Ret
-				for _, c := range g.cached {
-					if c.Ret < firstRet {
-						firstRet = c.Ret
+			if len(over) == 0 {
+				continue
+			}
+			src := okFetch[i-1]
+			all := []*call{src}
+			var ids []string
+			for _, r := range cand {
+				all = append(all, r.c)
+				ids = append(ids, fmt.Sprintf("%d(%s %s)", r.c.ID, r.c.Thread, r.c.Op))
+			}
+			conc := false
+			for x, a := range all {
+				for _, b := range all[x+1:] {
+					if overlap(a, b) {
+						conc = true
 					}
 				}
-				for i, s := range spare {
-					if s != nil && s.fetchEx().At < firstRet {
-						src, spare[i] = s, nil
-						break
-					}
-				}
-				if src == nil {
-					k := "served-without-fetch"
-					if failedBefore(key, firstRet) != nil {
-						k = "failed-fetch-served-from-cache"
-					}
-					vio("provenance", k, fmt.Sprintf("key %s: call %d returned a block slice that no successful fetch of this key produced", key, g.cached[0].ID))
-					continue
-				}
 			}
-			if src != nil && src.fetchEx().faulted() {
-				vio("provenance", "failed-fetch-served-from-cache", fmt.Sprintf("key %s: the fetch of call %d was faulted, yet its slice was returned to %d caller(s)", key, src.ID, len(g.cached)+1))
+			k := "reuse-exceeds-maxreads:sequential-readers"
+			if conc {
+				k = "reuse-exceeds-maxreads:concurrent-readers-same-segment"
 			}
-			if len(g.cached) > h.M {
-				conc := false
-				all := append([]*call{}, g.cached...)
-				if src != nil {
-					all = append(all, src)
-				}
-				for i, a := range all {
-					for _, b := range all[i+1:] {
-						if overlap(a, b) {
-							conc = true
-						}
-					}
-				}
-				k := "reuse-exceeds-maxreads:sequential-readers"
-				if conc {
-					k = "reuse-exceeds-maxreads:concurrent-readers-same-segment"
-				}
-				var ids []string
-				for _, c := range g.cached {
-					ids = append(ids, fmt.Sprintf("%d(%s %s)", c.ID, c.Thread, c.Op))
-				}
-				srcS := "?"
-				if src != nil {
-					srcS = fmt.Sprintf("%d(%s %s)", src.ID, src.Thread, src.Op)
-				}
-				vio("reuse", k, fmt.Sprintf("key %s maxreads=%d: ONE fetch (call %s) served %d cached reads: %s", key, h.M, srcS, len(g.cached), strings.Join(ids, ", ")))
+			next := "the end of the execution"
+			if i < nWin {
+				next = fmt.Sprintf("the next fetch (call %d)", okFetch[i].ID)
 			}
+			vio("reuse", k, fmt.Sprintf("key %s maxreads=%d: between the fetch of call %d(%s %s) and %s, %d reads were served without asking the node: %s; even when every read is charged to the most favourable window its call touches, %d of them exceed the bound",
+				key, h.M, src.ID, src.Thread, src.Op, next, len(cand), strings.Join(ids, ", "), len(over)))
+			break
 		}
 	}
 	_ = filters
@@ -331,6 +329,9 @@ func judge(h *history, deadlock string, panics []string) (*finding, stats) {
 			vio("head", k, fmt.Sprintf("call %d (%s %s) returned (%d, %x): the node never answered \"latest\" with this pair before the call returned", c.ID, c.Thread, c.Op, c.N, c.H))
 			continue
 		}
+		if c.HLive != nil && !bytes.Equal(c.HLive, c.H) {
+			vio("head", "head-hash-changed-after-return", fmt.Sprintf("call %d (%s %s) returned (%d, %x); the returned hash slice later read %x (it aliases the cache)", c.ID, c.Thread, c.Op, c.N, c.H, c.HLive))
+		}
 		asked := false
 		for _, e := range c.Exs {
 			if e.Kind == "latest" {
@@ -365,5 +366,5 @@ func (s stats) outcome() string {
 	}
 	return fmt.Sprintf("seg[fetch=%s cached=%s failed=%d] head[ask=%s hit=%s poll=%s failed=%d] err=%d%s%s",
 		cap3(s.Fetches), cap3(s.CachedReads), s.FailedFetches, cap3(s.HeadAsks), cap3(s.HeadHits), cap3(s.HeadAsksPoller), s.FailedAsks, s.Errs,
-		b(s.OverlapSameKey, " overlap"), b(s.SharedSliceTwoFilters, " shared2"))
+		b(s.OverlapSameKey, " overlap"), b(s.SharedSlice, " shared"))
 }
